@@ -34,7 +34,7 @@ def check_query(run, i, ev, why):
         import numpy as np
 
         thr_obj = np.uint64(eff)
-        hit = not (s.n_added_sort < s.n_added() or s.threshold_sort != thr_obj)
+        hit = not (s.n_added_sort is None or s.n_added_sort != s.n_added() or s.threshold_sort != thr_obj)
     except Exception:  # noqa: BLE001
         hit = None
     res = mon.api(s.query, k, t)
